@@ -12,11 +12,13 @@ L1Model(d) ==
       /\ r.out = "ok"
       /\ Has(r.d3, "paths")               \* the one shape rule of Validate the model knows
       /\ ApiDiff(Api2(d), Api3(r.d3)) = {}
+      /\ SerDiffs(Api2(d), Api3(r.d3)) = {}
       /\ ServersFwdOK(d, r.d3)
       /\ LET b == FromV3Doc(r.d3, {Host2(d)}, {StrOf(Opt(d, "basePath"), "")})
              ws == Schemes2(d) # {}
          IN /\ FromV3Outcomes(b) = {"ok"}
             /\ ApiDiff(Api2(d), Api2(b)) = {}
+            /\ SerDiffs(Api2(d), Api2(b)) = {}
             /\ Diff(Srv2(d, ws), Srv2(b, ws), <<>>) = {}
             /\ \A ref \in AllRefs(b) : V2RefOK(ref, CompNames2(d) \cup CompNames2(b) \cup CompNames3(r.d3))
 
